@@ -249,6 +249,9 @@ func (r *Run) flushFail(check string) {
 	r.violations++
 	r.mu.Unlock()
 	dir := filepath.Join(verifDir, "replays", r.ID)
+	if d := os.Getenv("VERIF_REPLAY_DIR"); d != "" {
+		dir = filepath.Join(d, r.ID)
+	}
 	os.MkdirAll(dir, 0o755)
 	b, _ := json.MarshalIndent(rf, "", " ")
 	h := fnv.New64a()
